@@ -1,5 +1,5 @@
 (* Extract_ex.v -- extraction of the ex line-command model (C06, C15) to OCaml (ExtrOcamlBasic only). *)
 From Coq Require Import List NArith ZArith Extraction ExtrOcamlBasic.
-From NV Require Import Bytes ExDefs.
+From NV Require Import Bytes ExDefs ExPipeDefs.
 Definition all_types : nat * N * Z := (0%nat, 0%N, 0%Z).
-Extraction "ex_model.ml" all_types init_st ex_main ex_region ex_loc ex_cmd ex_arg ex_txt ex_idx is_other lbuf_cp split_lines.
+Extraction "ex_model.ml" all_types init_st ex_main ex_region ex_loc ex_cmd ex_arg ex_txt ex_idx is_other lbuf_cp split_lines ex_main_x.
